@@ -12,7 +12,7 @@ from props import producer_check as PC
 
 THEOREMS = ["C09_trace_accepted", "C09_step_accepted", "C09_serial_batches", "C09_attempt_bound", "C09_backoff_first",
             "C09_backoff_consecutive", "C09_retry_subset", "C09_retry_exact", "C09_retry_resends", "C09_acked_reported", "C09_order",
-            "C09_order_step", "C09_one_payload", "C09_invariants_reachable", "C09_shrink_step", "C09_never_resent"]
+            "C09_order_step", "C09_one_payload", "C09_invariants_reachable", "C09_shrink_step", "C09_never_resent", "C09_complete", "C09_idle_outstanding_queued"]
 
 
 def monitor(run):
@@ -33,7 +33,8 @@ def monitor(run):
     for (i, mev, outs, before, after) in PC.steps(run):
         op = mev[0]
         ev = run.pyevents[i]
-        if op == 10 and run.applied[i]:
+        honest = run.dishonest_at is None or i < run.dishonest_at
+        if op in (10, 12) and run.applied[i]:
             v = ev[1]
             acked, failed = set(), None
             if v[0] == "resp":
@@ -102,7 +103,7 @@ def monitor(run):
             if attempt == 1:
                 # C09_serial_batches: everything of earlier batches is resolved
                 old = sorted(s for s in wire_sids if s not in resolved and s not in {m // L.MID for m in mids})
-                if old:
+                if old and honest:
                     bad.append((i, "serial: a new batch is on the wire while sends %r of an earlier one are unresolved" % (old,)))
                 again = sorted({m // L.MID for m in mids if m >= 0} & wire_sids)
                 if again:
